@@ -21,7 +21,7 @@ def shapes_cycle():
 USER_KINDS = {"prob": 0.0}  # set by a check whose oracle knows the user-defined kinds (vf/userkinds.py)
 
 
-def numpy_param_forms(desc, rng):
+def numpy_param_forms(desc, rng, len1_capacity=False):
     """Numeric element parameters held as NumPy values instead of Python floats (read from a .mat / .npy
     file): 0-d arrays or numpy.float64 for any parameter, length-1 arrays for turn rates.  Only for
     networks that are stepped with the NumPy engine.  Returns a param_override for desc.build."""
@@ -36,11 +36,13 @@ def numpy_param_forms(desc, rng):
                 po[(l["id"], a)] = np.array([x]) if (a == "beta" and k < 0.5) else (np.array(x) if k < 0.8 else np.float64(x))
     for o in desc["origins"]:
         if o.get("C") is not None and rng.random() < 0.4:
-            po[(o["id"], "C")] = np.array(float(o["C"]))
+            # a 0-d value, or a length-1 view of a parameter vector the caller keeps
+            # (a length-1 capacity makes the ramp's flow and queue length-1 arrays: only where the variables are)
+            po[(o["id"], "C")] = np.array([0.0, float(o["C"]), 0.0])[1:2] if (len1_capacity and rng.random() < 0.6) else np.array(float(o["C"]))
     return po
 
 
-def make_net(M, g: G.NetGen, shape, rng, random_ops=True, numpy_params=False):
+def make_net(M, g: G.NetGen, shape, rng, random_ops=True, numpy_params=False, len1_capacity=False):
     if shape == "allkinds":
         desc = g.all_kinds_network()
         shp = "allkinds"
@@ -49,9 +51,10 @@ def make_net(M, g: G.NetGen, shape, rng, random_ops=True, numpy_params=False):
     if USER_KINDS["prob"] and rng.random() < USER_KINDS["prob"]:
         G.add_user_kinds(desc, rng)
     ops = D.random_ops(desc, rng) if (random_ops and rng.random() < 0.7) else None
-    po = numpy_param_forms(desc, rng) if (numpy_params and rng.random() < 0.2) else None
+    po = numpy_param_forms(desc, rng, len1_capacity) if (numpy_params and rng.random() < (0.4 if len1_capacity else 0.2)) else None
     built = D.build(M, desc, ops, param_override=po)
     built.numpy_valued_parameters = bool(po)
+    built.caller_arrays = po or {}  # the caller keeps the arrays it handed over
     return shp, desc, built
 
 
@@ -102,10 +105,17 @@ def mutate_params_inplace(built, desc, rng, prefer=None):
                 o["eq"] = other[o["eq"]]
                 built.origins[o["id"]].flow_eq_type = D.fresh(o["eq"])
     else:
+        import numpy as _np
+
         for o in desc["origins"]:
             if o["kind"] in ("ramp", "simple"):
                 o["C"] = round(rng.uniform(1200.0, 4500.0), 1)
-                built.origins[o["id"]].C = o["C"]
+                cur = getattr(built, "caller_arrays", {}).get((o["id"], "C"))
+                if isinstance(cur, _np.ndarray) and cur.flags.writeable and cur.ndim >= 0 and built.origins[o["id"]].C is cur:
+                    cur[...] = o["C"]  # the caller overwrites the content of the array it handed over
+                    kind = "capacity (array content overwritten in place)"
+                else:
+                    built.origins[o["id"]].C = o["C"]
     return kind
 
 
@@ -551,12 +561,12 @@ def closed_loop(M, rec, rng, n_sims, steps, on_step=None, before_case=None):
     NE, CE = drive.engines(M)
     g = G.NetGen(rng)
     sh = shapes_cycle()
-    n_plans = 6
+    n_plans = 7
     for s in range(n_sims):
         shape = next(sh)
         if s % n_plans in (1, 3):
             shape = "allkinds"  # the loops that do not re-initialise every element see every element kind
-        shp, desc, built = make_net(M, g, shape, rng, numpy_params=True)
+        shp, desc, built = make_net(M, g, shape, rng, numpy_params=True, len1_capacity=True)
         _, vals = g.values(desc, "interior", allow_inf=False)
         pars = g.pars()
         ins, outs, org, dst = R.topology(desc)
@@ -571,14 +581,25 @@ def closed_loop(M, rec, rng, n_sims, steps, on_step=None, before_case=None):
         # arrays each step or from its own buffers refreshed in place; and, in a per-element loop over live
         # buffers, whether the elements are initialised again at every step, only the links, or only once
         plan = (("net", True, "all"), ("elements", True, "once"), ("net", False, "all"),
-                ("elements_links_first", True, "links"), ("elements_shuffled", False, "all"), ("elements", True, "all"))
+                ("elements_links_first", True, "links"), ("elements_shuffled", False, "all"), ("elements", True, "all"),
+                ("net", "feedback", "all"))
         via, use_buffers, reinit = plan[s % len(plan)]
-        buffers = drive.np_init(built, vals, "vec1") if use_buffers else None
+        buffers = drive.np_init(built, vals, "vec1") if use_buffers is True else None
         if via != "net":
             rec.count("simulations_stepped_through_element_level_calls")
-        rec.seen("simulation_loop_forms", (via, "buffers refreshed in place" if use_buffers else "fresh arrays", "init: " + reinit))
+        rec.seen("simulation_loop_forms", (via, {True: "buffers refreshed in place", False: "fresh arrays",
+                                                 "feedback": "the library's own next_states mappings fed back"}[use_buffers], "init: " + reinit))
         for k in range(steps):
             if k % 30 == 0:
+                import numpy as _np
+
+                for o in desc["origins"]:
+                    arr_ = getattr(built, "caller_arrays", {}).get((o["id"], "C"))
+                    if k > 0 and o["kind"] in ("ramp", "simple") and isinstance(arr_, _np.ndarray) and arr_.ndim == 1:
+                        # an incident: the caller overwrites the content of the capacity array it handed over
+                        o["C"] = round(rng.choice((0.3, 0.6, 1.0)) * o["C"], 1)
+                        arr_[...] = o["C"]
+                        rec.count("capacity_arrays_overwritten_in_place")
                 for o in desc["origins"]:
                     if o["kind"] == "ramp":
                         ctrl[o["id"]] = rng.choice((1.0, 1.0, rng.random(), 0.0))
@@ -605,6 +626,12 @@ def closed_loop(M, rec, rng, n_sims, steps, on_step=None, before_case=None):
                     vals[l["id"]]["v_ctrl"] = list(ctrl[l["id"]])
             if buffers is None:
                 ic = drive.np_init(built, vals, "vec1")
+                if use_buffers == "feedback" and k > 0:
+                    # `ic[link] = link.next_states`: the mapping the library returned goes straight back in
+                    for lid_, el_ in built.links.items():
+                        if el_.next_states is not None and set(el_.next_states) == set(ic[el_]):
+                            ic[el_] = el_.next_states
+                            rec.count("sim_steps_fed_with_the_library_next_states_mapping")
             else:  # refresh the same arrays in place (the usual simulation loop)
                 ic = buffers
                 fresh = drive.np_init(built, vals, "vec1")
@@ -664,7 +691,7 @@ def inplace_pairs(M, rec, rng, n_nets, before_case=None, on_case=None, allow_inf
     sh = shapes_cycle()
     for it in range(n_nets):
         shape = next(sh)
-        shp, desc, built = make_net(M, g, "allkinds" if it % 2 == 0 else shape, rng, numpy_params=True)
+        shp, desc, built = make_net(M, g, "allkinds" if it % 2 == 0 else shape, rng, numpy_params=True, len1_capacity=True)
         pars = g.pars()
         eng = NE()
         _, A = g.values(desc, allow_inf=False)
@@ -685,6 +712,15 @@ def inplace_pairs(M, rec, rng, n_nets, before_case=None, on_case=None, allow_inf
             for el_, d_ in fresh.items():
                 for name_, arr_ in d_.items():
                     buffers[el_][name_][...] = arr_
+            import numpy as _np
+
+            for o in desc["origins"]:
+                arr_ = getattr(built, "caller_arrays", {}).get((o["id"], "C"))
+                if o["kind"] in ("ramp", "simple") and isinstance(arr_, _np.ndarray) and arr_.ndim == 1 and rng.random() < 0.7:
+                    # the caller also overwrites the content of the capacity array it handed over (an incident)
+                    o["C"] = round(rng.choice((0.0, 0.3, 0.6)) * o["C"] + rng.choice((0.0, 200.0)), 1)
+                    arr_[...] = o["C"]
+                    rec.count("capacity_arrays_overwritten_in_place")
             only = [] if rng.random() < 0.5 else list(built.links.values())
             via = rng.choice(drive.VIAS[1:])
             rec.count("steps_from_buffers_overwritten_in_place_without_reinitialisation")
